@@ -46,10 +46,17 @@ def gen_plan(rng, index, tier):
     bp = {"rings": rings, "symmetry": sym, "nfuel": rng.choice([1, 2]), "plate": rng.random() < 0.4, "plenum": rng.random() < 0.4, "sfp": False, "geom": rng.choice(["hex", "hex_corners_up"])}
     if sym != "full":
         bp["third"] = True
+    if rng.random() < 0.3:
+        # Cartesian cores: full (centred on an assembly or on a corner) and quarter (the centre
+        # assembly is a quarter, the assemblies on the axes are halves; or nothing is cut)
+        sym = rng.choice(["full", "full", "quarter reflective through center assembly", "quarter periodic through center assembly", "quarter reflective"])
+        bp = {"rings": rng.choice([1, 2, 2, 3]) if sym != "full" else rng.choice([1, 2]), "symmetry": sym, "nfuel": rng.choice([1, 2]), "plate": rng.random() < 0.4, "plenum": rng.random() < 0.4, "sfp": False, "geom": "cartesian"}
+        if sym == "full" and rng.random() < 0.4:
+            bp["even"] = True
     cfg = {"reactor": "gen", "blueprint": bp, "settings": {"nCycles": 1, "burnSteps": 1}, "actors": []}
     steps = []
     for _ in range(rng.randint(4, 30)):
-        if sym != "full" and rng.random() < 0.12:
+        if bp["geom"] != "cartesian" and sym != "full" and rng.random() < 0.12:
             # edge assemblies on / off: blocks on the symmetry lines become half blocks (and back);
             # the core's mass and volume must not change
             steps.append({"op": "edge", "level": "core", "idx": 0, "nuc": 0, "nuc2": 0, "f": 1.0, "frac": 0.1, "mass": 1.0})
@@ -72,6 +79,8 @@ def gen_plan(rng, index, tier):
 def simplify(plan):
     bp = plan["config"]["blueprint"]
     for key, simple in (("plate", False), ("plenum", False), ("nfuel", 1), ("rings", 1), ("geom", "hex")):
+        if key == "geom" and bp.get("geom") == "cartesian":
+            continue
         if bp.get(key) != simple:
             p = copy.deepcopy(plan)
             p["config"]["blueprint"][key] = simple
@@ -100,6 +109,7 @@ class Runner:
         self.known = {}
         self.probes = {}
         self.applied = 0
+        self.edges_present = False
         self.sig = []
         self.aw = nucDir.getAtomicWeight
         self.K = units.MOLES_PER_CC_TO_ATOMS_PER_BARN_CM
@@ -114,6 +124,22 @@ class Runner:
             return
         raise OracleFailure(oracle, msg, det)
 
+    def expected_cut(self, a):
+        """Which fraction of an assembly the model holds, from the blueprint alone: 1/n -> n.  Returns
+        None where the statement leaves it to the presence of edge assemblies (hex, off-centre)."""
+        bp = self.plan["config"]["blueprint"]
+        sym = bp.get("symmetry", "full")
+        i, j = (int(x) for x in a.spatialLocator.getCompleteIndices()[:2])
+        if sym == "full":
+            return 1.0
+        if bp.get("geom") == "cartesian":
+            if "through center" not in sym:
+                return 1.0
+            return 4.0 if (i, j) == (0, 0) else 2.0 if 0 in (i, j) else 1.0
+        if (i, j) == (0, 0):
+            return 3.0
+        return None if self.edges_present else 1.0
+
     # ---- additivity laws at every level, from per-component primitives
     def check_levels(self, k, st):
         core = self.core
@@ -123,8 +149,11 @@ class Runner:
             a_mass = {}
             a_vol = 0.0
             a_atoms = {}
+            want_sf = self.expected_cut(a)
             for b in a:
                 sf = float(b.getSymmetryFactor())
+                if want_sf is not None and sf != want_sf:
+                    self.fail("C02.symmetry", f"step {k}: block {b.getName()} of the assembly at {tuple(int(x) for x in a.spatialLocator.getCompleteIndices()[:2])} reports symmetry factor {sf}; in a {self.plan['config']['blueprint'].get('symmetry')} {self.plan['config']['blueprint'].get('geom')} core it is 1/{want_sf:g} of a block", what="factor", geom=str(self.plan["config"]["blueprint"].get("geom")), symmetry=str(self.plan["config"]["blueprint"].get("symmetry")))
                 comps = list(b)
                 vols = [float(c.getVolume()) for c in comps]
                 b_vol = sum(vols) / sf
@@ -212,7 +241,7 @@ class Runner:
         from armi.reactor.converters import geometryConverters as gc
 
         core = self.core
-        if core.isFullCore:
+        if core.isFullCore or self.plan["config"]["blueprint"].get("geom") == "cartesian":
             return False
         # add and remove in one step: between the two the twin assemblies on the symmetry lines must
         # stay identical, so no composition edit may come in between
@@ -220,6 +249,7 @@ class Runner:
         edger = gc.EdgeAssemblyChanger()
         for what in ("addEdgeAssemblies", "removeEdgeAssemblies"):
             getattr(edger, what)(core)
+            self.edges_present = what == "addEdgeAssemblies"
             m1, v1, mu1 = float(core.getMass()), float(core.getVolume()), float(core.getMass("U235"))
             self.probe("edge_" + what)
             for nm, a, b in (("total mass", m0, m1), ("volume", v0, v1), ("U235 mass", mu0, mu1)):
@@ -333,7 +363,7 @@ def execute(plan):
     bp = cfg["blueprint"]
     log, scratch, clock, simos, d = enginea.new_run(plan)
     try:
-        if bp.get("third"):
+        if bp.get("third") and bp.get("geom") != "cartesian":
             cells = c14._first_third_cells(int(bp["rings"]))
             bp["cells"] = [[i, j, "IC" if inputs.hex_ring(i, j) == 1 else "OC"] for (i, j) in cells]
         cs, o, _ = enginea.build_life(cfg, scratch, 0, d)
@@ -341,6 +371,7 @@ def execute(plan):
         run.check_levels(-1, {"op": "init"})
         if any(float(b.getSymmetryFactor()) != 1.0 for b in o.r.core.iterBlocks()):
             run.probe("cut_blocks_present")
+        run.probe("core_" + str(bp.get("geom")) + "_" + str(bp.get("symmetry")).replace(" ", "_") + ("_even" if bp.get("even") else ""))
         for k, st in enumerate(plan["steps"]):
             try:
                 did = run.apply(k, st)
